@@ -27,6 +27,7 @@ class PassRecorder:
         self.passes = []
         self.active = False
         self._cur = None
+        self.fail_next = 0
 
     @classmethod
     def install(cls):
@@ -50,7 +51,17 @@ class PassRecorder:
                     self._cur["cp_passed"] = None
                 self._cur["x_passed"] = np.array(args[0], copy=True)
                 self._cur["weight_passed"] = args[2] if len(args) > 2 else None
-            return prev_min(*a, **kw)
+            if self.fail_next:
+                self.fail_next -= 1
+                raise RuntimeError("injected fault inside the optimiser")
+            res = prev_min(*a, **kw)
+            if self._cur is not None:
+                try:
+                    self._cur["cp_out"] = float(
+                        res.params["contact_point"].value)
+                except (KeyError, TypeError, AttributeError):
+                    self._cur["cp_out"] = None
+            return res
 
         def _fit(fitter):
             if not self.active:
@@ -59,7 +70,7 @@ class PassRecorder:
                    "range_x": [float(v) for v in fitter.range_x],
                    "range_type": fitter.range_type,
                    "edelta_flag": bool(fitter.optimal_fit_edelta),
-                   "cp_passed": None, "x_passed": None}
+                   "cp_passed": None, "x_passed": None, "cp_out": None}
             try:
                 cur["cp_stored"] = float(
                     fitter.fp["params_initial"]["contact_point"].value)
@@ -143,7 +154,7 @@ def run_post(idnt, post):
             idnt.get_initial_fit_parameters()
 
 
-def observe_fit(idnt, kwargs, label="", post=None):
+def observe_fit(idnt, kwargs, label="", post=None, fault=False):
     from nanite import model
     rec = PassRecorder.install()
     rec.passes = []
@@ -152,6 +163,23 @@ def observe_fit(idnt, kwargs, label="", post=None):
     # that the stored initial contact point at fit start is known
     kw = dict(kwargs)
     out = {"label": label, "raised": ""}
+    if fault:
+        # the same request, interrupted by a transient fault inside the
+        # optimiser first: it must not leave anything behind that makes the
+        # repetition look "already done"
+        rec.fail_next = 1
+        try:
+            with warnings.catch_warnings():
+                warnings.simplefilter("ignore")
+                idnt.fit_model(**copy.deepcopy(kw))
+            out["fault_raised"] = False
+        except BaseException as exc:
+            if isinstance(exc, (KeyboardInterrupt, SystemExit)):
+                raise
+            out["fault_raised"] = True
+        finally:
+            rec.fail_next = 0
+        rec.passes = []
     rec.active = True
     try:
         with warnings.catch_warnings():
@@ -235,7 +263,12 @@ def observe_fit(idnt, kwargs, label="", post=None):
                 xexp = 98
         if p["cp_passed"] is not None and cp0 not in (None, 0.0) and k != 1:
             cpexp = exponent(p["cp_passed"] / cp0, k)
+        repexp = 99
+        if p.get("cp_out") not in (None, 0.0) and p["cp_fitted"] is not None \
+                and k != 1 and p["ok"]:
+            repexp = exponent(p["cp_fitted"] / p["cp_out"], k)
         rpasses.append({
+            "rep_exp": int(repexp),
             "kind": kind, "lo": rank_of(table, min(lo, hi)),
             "hi": rank_of(table, max(lo, hi)), "zero": bool(zero),
             "mask": [int(j) + 1 for j in np.flatnonzero(p["mask"])],
@@ -297,11 +330,14 @@ def observe_fit(idnt, kwargs, label="", post=None):
         dopt = float(fp["optimal_fit_delta"])
         scan["dopt_inside"] = bool(d.min() <= dopt <= d.max())
         lastp = passes[-1]["range_x"] if passes else [np.nan, np.nan]
-        scan["final_lo_is_dopt"] = bool(min(lastp) == dopt) \
+        # (when the requested upper bound lies inside the scanned depths the
+        # interval [depth, upper] can be given the other way round)
+        scan["final_lo_is_dopt"] = bool(dopt in [float(v) for v in lastp]) \
             if passes else True
         scan["passes_follow_grid"] = bool(
             len(passes) == len(d) + 1 and
-            all(min(passes[i]["range_x"]) == d[i] for i in range(len(d))))
+            all(float(d[i]) in [float(v) for v in passes[i]["range_x"]]
+                for i in range(len(d))))
     out["scan"] = scan
     # ------------------------------------------------ C04 relation flags
     rel = {"fit_is_model": True, "nan_outside_segment": True,
@@ -337,6 +373,7 @@ def observe_fit(idnt, kwargs, label="", post=None):
         chi = float(np.sum(resc[fr] ** 2))
         rel["chi_ok"] = close(fp["chi_sqr"], chi, 1e-9, scale=chi or 1.0)
         pi = fp["params_initial"]
+        want = kw.get("params_initial")
         for name, p in pf.items():
             if p.expr:
                 continue
@@ -348,11 +385,13 @@ def observe_fit(idnt, kwargs, label="", post=None):
                              scale=abs(pi[name].value) or 1):
                     rel["fixed_kept"] = False
             if p.vary:
-                lo_b = p.min if name != "contact_point" else -np.inf
-                hi_b = p.max if name != "contact_point" else np.inf
-                if not (lo_b <= p.value <= hi_b):
+                # the bounds the caller declared (when given), else the
+                # reported ones; all in measured units
+                src = want[name] if want is not None and name in want \
+                    else p
+                tol = 1e-12 * max(abs(p.value), 1e-300)
+                if not (src.min - tol <= p.value <= src.max + tol):
                     rel["within_bounds"] = False
-        want = kw.get("params_initial")
         if want is not None:
             for name, p in want.items():
                 if p.expr and (name not in pf or pf[name].expr != p.expr):
